@@ -25,7 +25,7 @@ ASSUMPTIONS = cc.ASSUMPTIONS_CORE + ctxhist.ASSUMPTIONS
 def extra(tier, rng):
     import coregen
     return [{"special": "overlap", "extra": e} for e in (False, True)] + [cc.ctxraise_case(w, n, h, sb) for w in ("pause", "resume") for n in (0, 1, 2) for h in (0, 1) for sb in (0, 1)] + [coregen.override_family(rng) for _ in range(150 if tier == "quick" else 3000)] + \
-        ctxhist.cases(tier, rng)
+        ctxhist.cases(tier, rng) + cc.corefam4.callctx_cases(tier, cc.fork(rng, "callctx"))
 
 
 def plan(tier, seed):
